@@ -20,6 +20,12 @@ using namespace sqf::types;
 
 namespace
 {
+    // Keys are captured by value: an array used as key must not change (and with it its hash) when the
+    // array it was built from is modified later.
+    value capture_key(value::cref key)
+    {
+        return key.is<t_array>() ? value(key.data<d_array>()->copy_deep()) : key;
+    }
     value createhashmap_(runtime& runtime)
     {
         return std::make_shared<d_hashmap>();
@@ -39,7 +45,7 @@ namespace
                     auto& key = subArr->at(0);
                     auto& value = subArr->at(1);
                     // ToDo: Check key-type matches
-                    hashmap[key] = value;
+                    hashmap[capture_key(key)] = value;
                 }
                 else
                 {
@@ -70,7 +76,7 @@ namespace
             auto& key = arr->at(0);
             auto& value = arr->at(1);
             // ToDo: Check key-type matches
-            data->map()[key] = value;
+            data->map()[capture_key(key)] = value;
         }
         else
         {
